@@ -247,7 +247,7 @@ def run_case(case):
     if {'a', 'a-5'} <= prefixes or {'a', 'a-b'} <= prefixes:
         stats['probes']['related_prefixes'] = 1
     return {'violations': violations, 'digest': digest, 'steps': stats['ops'], 'switches': 0, 'fired': {},
-            'probes': stats['probes'], 'virtual_s': 0.0, 'nontrivial': nq >= 3, 'outcome': {'ops': stats['ops']}}
+            'probes': stats['probes'], 'virtual_s': stats.get('virtual_s', 0.0), 'nontrivial': nq >= 3, 'outcome': {'ops': stats['ops']}}
 
 
 def shrink_candidates(case):
